@@ -214,26 +214,33 @@ func ruleAutoEntriesDeletedTogether(c *Ctx, rule string) {
 func ruleBuilderBinding(c *Ctx, rule string) {
 	a := c.A
 	c.R.Rule(c.R.Property+"."+rule, 3, "the OPTIONS/405 handlers built by builder(node) capture that node: they must be stored on the same node object, and a handler map must never move to another node object")
+	// (a) every handler built by a node-handler builder is installed on the node it was built for
+	placed := map[*ssa.Call]bool{}
+	for _, inst := range c.handlerInstalls() {
+		hv := inst.in.Value
+		if wargs, ok := c.resolveWrap(hv, 0); ok {
+			hv = wargs[0].V
+		}
+		bc, ok := isBuilderCall(hv)
+		if !ok || len(bc.Call.Args) != 1 {
+			continue
+		}
+		placed[bc] = true
+		n := canonAlloc(bc.Parent(), an.AP(bc.Call.Args[0]))
+		good := n == inst.node && bc.Parent() == inst.f
+		c.R.Add(rule, c.fk(inst.f), "builder-result/installed-on:"+inst.node+"/built-for:"+n, c.pos(inst.in), good, ifelse(good, "the automatic handler is stored in the handler map of the node it was built for", "an automatic handler built for "+n+" is stored on "+inst.node+": its Allow header reads another node's summary"))
+	}
 	for _, f := range c.libFuncs() {
 		an.AllInstrs(f, func(in ssa.Instruction) {
-			// (a) builder calls
-			if call, ok := in.(*ssa.Call); ok && !call.Call.IsInvoke() {
-				cap := an.AP(call.Call.Value)
-				if strings.HasSuffix(cap, "."+a.FOptBuilder) || strings.HasSuffix(cap, "."+a.FNABuilder) {
-					if _, isTree := isTreeField(c, call.Call.Value); isTree && len(call.Call.Args) == 1 {
-						n := canonAlloc(f, an.AP(call.Call.Args[0]))
-						dests := c.handlerDestinations(f, call)
-						okAll := len(dests) > 0
-						for _, d := range dests {
-							if d != n {
-								okAll = false
-							}
-						}
-						construct := "builder:" + cap[strings.LastIndex(cap, ".")+1:] + "/arg:" + n
-						c.R.Add(rule, c.fk(f), construct, c.pos(in), okAll, ifelse(okAll, "result is stored into the handler map of "+n, fmt.Sprintf("automatic handler built for %s is stored on %v: its Allow header reads another node's summary", n, dests)))
-					}
+			if v, ok := in.(ssa.Value); ok {
+				if bc, ok := isBuilderCall(v); ok && !placed[bc] {
+					c.R.Add(rule, c.fk(f), "builder-result/installed", c.pos(in), false, "a node-handler builder is called but its result is not installed in a handler map")
 				}
 			}
+		})
+	}
+	for _, f := range c.libFuncs() {
+		an.AllInstrs(f, func(in ssa.Instruction) {
 			// (b) handler map moved between node objects
 			if base, field, val, ok := fieldStore(in, a.NodeT); ok && field == a.FHandlers {
 				if src, isLoad := fieldLoadOf(val, a.NodeT, a.FHandlers); isLoad && src != base {
